@@ -1,7 +1,7 @@
 (* Run.v — the command interpreter that the extracted runner and the in-Coq
    cross-check both use: decodes integer argument lists, runs the models, returns
    observations. *)
-From PF Require Import Base Comb ModelPot ModelSettle ModelEval ModelSeat ModelReg ModelGame.
+From PF Require Import Base Comb ModelPot ModelSettle ModelEval ModelSeat ModelReg ModelSys ModelGame.
 From PF.Gen Require Import Consts.
 Open Scope string_scope.
 Open Scope Z_scope.
@@ -149,15 +149,28 @@ Definition dec_sm_op (l : list Z) : option sm_op :=
   end.
 
 (* ---------- interpreter state ---------- *)
-Record rstate := mkRS0 { rs_sm : smgr; rs_regst : reg; rs_game : gstate; rs_stack : list gstate }.
-Definition mkRS (s : smgr) (r : reg) (g : gstate) : rstate := mkRS0 s r g [].
+Record rstate := mkRS0 { rs_sm : smgr; rs_regst : reg; rs_game : gstate; rs_stack : list gstate;
+                         rs_sys : sys (* the regulator with its tables: stepped beside the regulator alone *) }.
+Definition mkRS' (st : rstate) (s : smgr) (r : reg) (g : gstate) : rstate := mkRS0 s r g [] (rs_sys st).
 
 Definition empty_game : gstate :=
   mkG (mkMeta 0 0 0 0 false 0 0 [] [] 0) (mkSt 0 0 [] RNone [] [] 0 0 0 0 0 0 EvNone None) [] None.
-Definition rs_init : rstate := mkRS (sm_init 0) (reg_init 9 6) empty_game.
-Definition with_game (st : rstate) (g : gstate) : rstate := mkRS0 (rs_sm st) (rs_regst st) g (rs_stack st).
+Definition rs_init : rstate := mkRS0 (sm_init 0) (reg_init 9 6) empty_game [] (sys_init 9 6).
+Definition with_game (st : rstate) (g : gstate) : rstate := mkRS0 (rs_sm st) (rs_regst st) g (rs_stack st) (rs_sys st).
 
 Definition bad : obs := [("bad", [1])].
+
+(* the environment of the system machine (ModelSys.v): the tables with their members in seating order, the
+   players in transit (sorted), the number of living players, and whether its regulator is the regulator
+   stepped alone *)
+Fixpoint zlist_eqb (a b : list Z) : bool :=
+  match a, b with [], [] => true | x :: a', y :: b' => (x =? y) && zlist_eqb a' b' | _, _ => false end.
+Definition reg_flat (r : reg) : list Z := flat_map (fun kv => zn (length (snd kv)) :: snd kv) (obs_reg r).
+Definition obs_sys (sy : sys) (r : reg) : obs :=
+  [("envt", flat_map (fun t => fst t :: zn (length (snd t)) :: snd t) (s_tabs sy));
+   ("envtr", isort (fun a b => a <? b) (s_transit sy));
+   ("enval", [zn (length (s_alive sy))]);
+   ("sysreg", [zb (zlist_eqb (reg_flat (rs_reg (s_st sy))) (reg_flat r))])].
 
 Definition reg_result (st : rst) (o : reg_out) (extra : obs) : obs :=
   ("o", [reg_out_code o]) :: ("badchoice", [zb (rs_bad st)]) :: ("events", obs_events (rs_ev st))
@@ -200,12 +213,12 @@ Definition interp (st : rstate) (cmd : string) (args : list Z) : rstate * obs :=
     | _ => (st, bad) end
   else if String.eqb cmd "sm-new" then
     match args with
-    | [n] => let s := sm_init (Z.to_nat n) in (mkRS s (rs_regst st) (rs_game st), obs_sm s SOk (-1))
+    | [n] => let s := sm_init (Z.to_nat n) in (mkRS' st s (rs_regst st) (rs_game st), obs_sm s SOk (-1))
     | _ => (st, bad) end
   else if String.eqb cmd "sm" then
     match dec_sm_op args with
     | Some o => let '(s, out, ret) := sm_step (rs_sm st) o in
-                (mkRS s (rs_regst st) (rs_game st), obs_sm s out ret)
+                (mkRS' st s (rs_regst st) (rs_game st), obs_sm s out ret)
     | None => (st, bad) end
   else if String.eqb cmd "sm-set" then
     match args with
@@ -220,7 +233,7 @@ Definition interp (st : rstate) (cmd : string) (args : list Z) : rstate * obs :=
                              (combine occ (combine act res)) in
             let opt z := if z <? 0 then None else Some (Z.to_nat z) in
             let s := mkSM seats (opt d) (opt sb) (opt bb) in
-            (mkRS s (rs_regst st) (rs_game st), obs_sm s SOk (-1))
+            (mkRS' st s (rs_regst st) (rs_game st), obs_sm s SOk (-1))
         | _ => (st, bad) end
     | _ => (st, bad) end
   else if String.eqb cmd "sm-x" then
@@ -245,37 +258,44 @@ Definition interp (st : rstate) (cmd : string) (args : list Z) : rstate * obs :=
   else if String.eqb cmd "reg-new" then
     match args with
     | [mx; mn] => let r := reg_init mx mn in
-                  (mkRS (rs_sm st) r (rs_game st), reg_result (mkRst r [] [] false) ROk [])
+                  let sy := sys_init mx mn in
+                  (mkRS0 (rs_sm st) r (rs_game st) [] sy, reg_result (mkRst r [] [] false) ROk [])
     | _ => (st, bad) end
   else if String.eqb cmd "reg-add" then
     match take_list args with
     | Some (choices, players) =>
         let '(s1, o) := add_players (mkRst (rs_regst st) [] choices false) players in
-        (mkRS (rs_sm st) (rs_reg s1) (rs_game st), reg_result s1 o [])
+        let sy := sys_gstep (rs_sys st) (GRegister choices players) in
+        (mkRS0 (rs_sm st) (rs_reg s1) (rs_game st) [] sy, reg_result s1 o [])
     | None => (st, bad) end
   else if String.eqb cmd "reg-status" then
     match take_list args with
     | Some (choices, [status]) =>
         let s1 := do_set_status (mkRst (rs_regst st) [] choices false) status in
-        (mkRS (rs_sm st) (rs_reg s1) (rs_game st), reg_result s1 ROk [])
+        let sy := sys_gstep (rs_sys st) (GStatus choices status) in
+        (mkRS0 (rs_sm st) (rs_reg s1) (rs_game st) [] sy, reg_result s1 ROk [])
     | _ => (st, bad) end
   else if String.eqb cmd "reg-sync" then
     match args with
-    | [id; out] =>
+    | id :: out :: elim =>
         let '(s1, rel, players, o) := sync_state (mkRst (rs_regst st) [] [] false) id out in
-        (mkRS (rs_sm st) (rs_reg s1) (rs_game st),
+        let sy := sys_gstep (rs_sys st) (GSync id elim) in
+        (mkRS0 (rs_sm st) (rs_reg s1) (rs_game st) [] sy,
          reg_result s1 o [("release", [rel]); ("handed", players)])
     | _ => (st, bad) end
   else if String.eqb cmd "reg-release" then
     match take_list args with
     | Some (choices, players) =>
         let s1 := release_players (mkRst (rs_regst st) [] choices false) players in
-        (mkRS (rs_sm st) (rs_reg s1) (rs_game st), reg_result s1 ROk [])
+        let sy := sys_gstep (rs_sys st) (GRelease choices players) in
+        (mkRS0 (rs_sm st) (rs_reg s1) (rs_game st) [] sy, reg_result s1 ROk [])
     | None => (st, bad) end
+  else if String.eqb cmd "reg-env" then
+    (st, obs_sys (rs_sys st) (rs_regst st))
   else if String.eqb cmd "game-new" then
     match dec_config args with
     | Some (c, deck1) => let '(g, o) := create c deck1 in
-                         (mkRS (rs_sm st) (rs_regst st) g, obs_game g o)
+                         (mkRS' st (rs_sm st) (rs_regst st) g, obs_game g o)
     | None => (st, bad) end
   else if String.eqb cmd "game-do" then
     match dec_op args with
@@ -297,13 +317,13 @@ Definition interp (st : rstate) (cmd : string) (args : list Z) : rstate * obs :=
     (* a JSON hop: drop what is not serialised *)
     (with_game st (erase (rs_game st)), [("ok", [1])])
   else if String.eqb cmd "game-push" then
-    (mkRS0 (rs_sm st) (rs_regst st) (rs_game st) (rs_game st :: rs_stack st), [("ok", [1])])
+    (mkRS0 (rs_sm st) (rs_regst st) (rs_game st) (rs_game st :: rs_stack st) (rs_sys st), [("ok", [1])])
   else if String.eqb cmd "game-restore" then
     match rs_stack st with
     | g :: _ => (with_game st g, [("ok", [1])])
     | [] => (st, bad) end
   else if String.eqb cmd "game-drop" then
-    (mkRS0 (rs_sm st) (rs_regst st) (rs_game st) (tl (rs_stack st)), [("ok", [1])])
+    (mkRS0 (rs_sm st) (rs_regst st) (rs_game st) (tl (rs_stack st)) (rs_sys st), [("ok", [1])])
   else (st, bad).
 
 (* run a script of commands, collecting observations (used by the in-Coq cross-check) *)
